@@ -32,8 +32,14 @@ elif [ "$cmd" = run ]; then
     copy=/tmp/seeded-repo-$$
     rm -rf "$copy"; git -C /repo worktree add -q --detach "$copy" HEAD || exit 2
     git -C "$copy" apply "$ROOT/seeded/$id/patch.diff" || { git -C /repo worktree remove --force "$copy"; exit 2; }
-    VERIF_REPO="$copy" "$ROOT/bin/check" "$prop" "$tier" > "$ROOT/.work/seeded-$id-$prop.log" 2>&1; rc=$?
-    git -C /repo worktree remove --force "$copy"
+    # private copies of the Lean project (the generated part of the model follows the patched source), of the
+    # scratch directory and of the output directory: several changed trees can be checked at the same time and
+    # /verif/evidence, /verif/replays keep describing /repo itself
+    priv=/tmp/seeded-verif-$$; rm -rf "$priv"; mkdir -p "$priv/work" "$ROOT/.work/alt/$id"
+    cp -a "$ROOT/lean" "$priv/lean"
+    VERIF_REPO="$copy" VERIF_LEAN_DIR="$priv/lean" VERIF_WORK_DIR="$priv/work" VERIF_OUT_DIR="$ROOT/.work/alt/$id" \
+      "$ROOT/bin/check" "$prop" "$tier" > "$ROOT/.work/seeded-$id-$prop.log" 2>&1; rc=$?
+    git -C /repo worktree remove --force "$copy"; rm -rf "$priv"
   else
     git -C /repo diff --quiet || { echo "/repo has uncommitted changes"; exit 2; }
     git -C /repo apply "$ROOT/seeded/$id/patch.diff" || exit 2
